@@ -64,13 +64,19 @@ pub fn run(prop: &str, ctx: &mut Ctx) {
     }
     if ctx.tier == crate::engine::Tier::Thorough && ctx.violations.is_empty() {
         let check = check_fn(prop);
+        // fixed numbers of executions; fewer for the two properties whose oracle runs many parsers per input
+        let (l_seeded, l_empty, p_seeded, p_empty) = match prop {
+            "C17" => (200_000, 60_000, 0, 0),
+            "C18" => (400_000, 150_000, 1_000_000, 300_000),
+            _ => (1_200_000, 400_000, 2_000_000, 500_000),
+        };
         if crate::fuzzglue::takes_history(prop) {
-            ctx.fuzz_campaign("fz_lines", 1_200_000, true, check);
-            ctx.fuzz_campaign("fz_lines", 400_000, false, check);
+            ctx.fuzz_campaign("fz_lines", l_seeded, true, check);
+            ctx.fuzz_campaign("fz_lines", l_empty, false, check);
         }
         if crate::fuzzglue::takes_payload(prop) || crate::fuzzglue::takes_unarmor(prop) {
-            ctx.fuzz_campaign("fz_payload", 2_000_000, true, check);
-            ctx.fuzz_campaign("fz_payload", 500_000, false, check);
+            ctx.fuzz_campaign("fz_payload", p_seeded, true, check);
+            ctx.fuzz_campaign("fz_payload", p_empty, false, check);
         }
     }
 }
